@@ -67,6 +67,10 @@ class NF(object):
 
   @staticmethod
   def app(fname, args, attrs=()):
+    if fname in ("maximum", "minimum", "or", "and"):
+      # commutative: canonical argument order
+      args = sorted(args, key=lambda a: (0, hash(a)) if isinstance(a, NF)
+                    else (1, 0))
     return NF.atom(("app", fname, tuple(attrs), tuple(args)))
 
   # -- queries -----------------------------------------------------------
